@@ -65,8 +65,8 @@ def check(repo: Repo, R) -> None:
     # ---- 2 uniqueness
     rule = "C06.2-unique-names"
     # everything that builds or registers runs only when id(module) is not in the map; the hit returns the recorded export
-    hit = [r for r in shared.returns_of(fm.node) if ast.unparse(r.value) == "self.modules_by_id[id(module)].pmod" and shared.cond_match(fm.node, r, "id(module) in self.modules_by_id", True, use_prov=False)]
-    memo = len(hit) == 1 and all(shared.cond_match(fm.node, x, "id(module) in self.modules_by_id", False, use_prov=False) for x in (i_app, i_id, i_nm))
+    hit = [r for r in shared.returns_of(fm.node) if shared.prov_text(fm.node, r.value) in ("self.modules_by_id[id(module)].pmod", "self.modules_by_id.get(id(module)).pmod") and shared.presence(fm.node, r, "self.modules_by_id", "id(module)") is True]
+    memo = len(hit) == 1 and all(shared.presence(fm.node, x, "self.modules_by_id", "id(module)") is False for x in (i_app, i_id, i_nm))
     R.check(memo, rule, key_of(fm, "memo"), fm.site, f"a module already exported in this call is returned, not exported again: {memo}", why="a shared sub-module is emitted twice under one name")
     fn = repo.func(F_EXPORT, "ProtoExporter.export_module_name")
     rets = shared.returns_of(fn.node)
@@ -131,7 +131,7 @@ def check(repo: Repo, R) -> None:
     fct = repo.func(F_EXPORT, "export_connection_target")
     s = fct.node.args.args[0].arg
     def _under(c, kind):
-        return shared.cond_match(fct.node, c, f"isinstance({s}, {kind})", True, use_prov=False)
+        return shared.admissible_kinds(fct.node, c, s, {"Signal", "Slice", "Concat"}) == {kind}
     ok = (any(_under(c, "Signal") for c, _b in pat.find(f"$P.sig = {s}.name", fct.node)) and any(_under(c, "Slice") for c, _b in pat.find(f"$P.slice.CopyFrom(export_slice({s}))", fct.node))
           and any(_under(c, "Concat") for c, _b in pat.find(f"$P.concat.CopyFrom(export_concat({s}))", fct.node)))
     R.check(ok, rule, key_of(fct), fct.site, f"connection targets name the connected signal / slice / concat itself: {ok}", why="connections name another signal")
@@ -144,7 +144,17 @@ def check(repo: Repo, R) -> None:
         if isinstance(st, (ast.Assign, ast.AnnAssign)) and st.value is not None:
             v = st.value
             if isinstance(v, (ast.Dict, ast.List, ast.Set)) or (isinstance(v, ast.Call) and dotted(v.func) in ("dict", "list", "set", "ProtoExporter", "vckt.Package")):
-                mut.append(ast.unparse(st)[:60])
+                tg = st.targets[0] if isinstance(st, ast.Assign) else st.target
+                nm = tg.id if isinstance(tg, ast.Name) else None
+                # a literal table that nothing in the file writes to is a constant, not state
+                written = nm is None or not isinstance(v, (ast.Dict, ast.List, ast.Set)) or any(
+                    (isinstance(x, ast.Subscript) and isinstance(x.ctx, (ast.Store, ast.Del)) and isinstance(x.value, ast.Name) and x.value.id == nm)
+                    or (isinstance(x, ast.Call) and isinstance(x.func, ast.Attribute) and isinstance(x.func.value, ast.Name) and x.func.value.id == nm and x.func.attr in ("append", "extend", "insert", "update", "pop", "popitem", "setdefault", "clear", "add", "remove", "discard", "sort", "reverse"))
+                    or (isinstance(x, (ast.Global,)) and nm in x.names)
+                    or (isinstance(x, ast.AugAssign) and isinstance(x.target, ast.Name) and x.target.id == nm)
+                    for x in ast.walk(sf.tree))
+                if written:
+                    mut.append(ast.unparse(st)[:60])
     ft = repo.func(F_EXPORT, "to_proto")
     rets = shared.returns_of(ft.node)
     fresh = len(rets) == 1 and pat.match("ProtoExporter(tops=$T, domain=domain).export()", shared.prov(ft.node, rets[0].value, depth=1)) is not None
